@@ -412,7 +412,7 @@ func ruleLightDetector(c *Ctx) {
 		okFirst := false
 		for _, ea := range condEdges(f) {
 			if ea.A.Kind == "cmp" && ea.A.Op == token.EQL {
-				if v, ok := constInt(ea.A.Y); ok && v == 0 && strings.Contains(w.expr(ea.A.X), "rangeindex") {
+				if v, ok := constInt(ea.A.Y); ok && v == 0 && regexp.MustCompile("^"+fwdIdx+"$").MatchString(w.expr(ea.A.X)) {
 					okFirst = true
 				}
 			}
